@@ -1,7 +1,7 @@
 (* Extraction of the executable models to OCaml: ExtrOcamlBasic only (bool, option, unit, list, prod,
    sumbool, sumor mapped to OCaml's own; every number stays the extracted inductive type). *)
 From Coq Require Import Extraction ExtrOcamlBasic NArith ZArith.
-From RS Require Import Order.MsgOrderDefs Part.PartitionDefs Rng.RngDefs Topo.TopoDefs TW.App TW.Seq TW.Term Sync.BarrierProto Sync.BarrierMore Stats.StatsFormat Buddy.Alloc Heap.HeapList TW.GvtCounters TW.GvtExec TW.Flags TW.Worker TW.WorkerOnceApp TW.GvtNode.
+From RS Require Import Order.MsgOrderDefs Part.PartitionDefs Rng.RngDefs Topo.TopoDefs TW.App TW.Seq TW.Term Sync.BarrierProto Sync.BarrierMore Stats.StatsFormat Buddy.Alloc Heap.HeapList TW.GvtCounters TW.GvtExec TW.Flags TW.Worker TW.WorkerOnceApp TW.GvtNode TW.WorkerTerm.
 Extraction "model.ml" before before_ext q_before content node_init thread_init owner first
   rng_init random_u64 random_bits random_bits_unsplit floor_mul random_range random_range_nonuniform
   get_receiver is_neighbor count_directions add_link N.mul
@@ -12,4 +12,4 @@ Extraction "model.ml" before before_ext q_before content node_init thread_init o
   mm_init rs_malloc rs_free rs_realloc write_block read_cell checkpoint_take checkpoint_restore fossil_collect flatten ckpt_written N.ltb N.div
   q_init q_push q_flag q_extract q_peek heap_insert heap_extract
   gstep gvt_init fstep fm_init
-  w_init wstep wdigest types_okb gn_init gn_exec gn_gvt gn_col gn_ctr gn_need gn_recv gn_stage gn_find gn_inflight.
+  w_init wstep wdigest types_okb tw_init twstep tdigest gn_init gn_exec gn_gvt gn_col gn_ctr gn_need gn_recv gn_stage gn_find gn_inflight.
